@@ -77,7 +77,10 @@ def judge(req, obs):
         if (info.get("mode", 0) & 0o777) not in {x & 0o777 for x in modes_ok}:
             add("mode", "%s|%s|umask=%s%s" % (kind, "default" if "unset" in set_as else ("pk=%s" % oct(m["pk_mode"] or 0) if kind == "account" else "configured"), oct(m["umask"]), "|rewrite" if m["phase2"] else ""),
                 "%s file created with mode %s (%s, umask %s)" % (kind, "/".join(oct(x) for x in sorted(modes_ok)), set_as, oct(m["umask"])), oct(info.get("mode", 0)))
-        if kind in ("private-key", "account") and info.get("mode", 0) & 0o077 & ~(want | 0):
+        asked = 0
+        for x in modes_ok:
+            asked |= x  # (after a rewrite under a changed configuration, either configured mode is what the administrator asked for)
+        if kind in ("private-key", "account") and info.get("mode", 0) & 0o077 & ~asked:
             add("mode", "%s|group-or-other-bits" % kind, "%s file not readable by group or others unless asked" % kind, oct(info.get("mode", 0)))
         euid, egid = os.geteuid(), os.getegid()
         if info.get("uid") != (wu if wu is not None else euid):
@@ -140,6 +143,10 @@ def run(ctx):
     # rewrite of existing files under a changed configuration
     flows_.append(make_req(cert_mode=0o644, pk_mode=0o600, phase2={"cert_file_mode": 0o600, "pk_file_mode": 0o640}))
     flows_.append(make_req(cert_mode=0o600, pk_mode=0o640, phase2={"cert_file_mode": 0o644, "pk_file_mode": 0o600}))
+    # rewrites under a umask that masks configured bits (the mode of a rewritten file is masked too), unchanged and changed configuration
+    for um in (0o077, 0o027):
+        flows_.append(make_req(cert_mode=0o644, pk_mode=0o640, umask=um, phase2={}))
+        flows_.append(make_req(cert_mode=0o644, pk_mode=0o600, umask=um, phase2={"cert_file_mode": 0o664, "pk_file_mode": 0o660}))
     if root:
         flows_.append(make_req(owners={"pk_file_user": "nobody"}, phase2={"pk_file_user": "daemon", "pk_file_group": "nogroup"}))
     # no [global] table at all: the built-in defaults must apply (load only: the default directories are system paths)
